@@ -44,15 +44,17 @@ PROPS = {
     },
     "C07": {
         "controls": ["BIT"],
-        "rules": [("SUP-3", sup.sup3), ("BIT-4", bit.bit4), ("POL-1", pol.pol1)],
+        "rules": [("SUP-3", sup.sup3), ("BIT-4", bit.bit4), ("POL-1", pol.pol1), ("VAR-1", flw2.var1)],
         "explanation": "Decides the alpha half of C07 ('a feature, node, length or stress value copied by an alpha onto the element it was read from leaves every word as it was') "
                        "as a composition of extracted tables and proved identities: POL-1: the matcher captures `bit != 0` (false on an absent node) for α, its inverse for -α, and the "
                        "output applies set_feat(N, bit, α) resp. !α; BIT-4 (bit-level abstract interpretation, all segments): set_feat(N, bit, <value of that bit>) and "
                        "set_node(N, get_node(N)) are the identity on every segment (7 nodes x 16 place shapes x every bit x both values); SUP-3: for long, overlong, stress, sec.stress "
                        "the value captured by the unbound alpha arm of match_seg_length / match_stress, fed to apply_supras / apply_syll_mods, gives the state back, for each of the "
-                       "three states.",
-        "does_not_decide": "variables (`X=1 > 1`): capture and write-back of segments and syllables, variable comparison in contexts; that the alpha table is keyed and scoped correctly beyond FLW-8 (C04); tone.",
-        "assumptions": ["length abstracted to the manual's three values (see C05)"],
+                       "three states. VAR-1 ('a variable used in a context matches only a syllable identical to the captured one'): in context_match_syll_var and "
+                       "input_match_syll_var the path without modifiers compares segments, stress and tone of the current syllable with the captured one (field by field or as a "
+                       "whole Syllable), the path with modifiers compares the segments.",
+        "does_not_decide": "variables (`X=1 > 1`): capture and write-back of segments and syllables, segment-variable comparison in contexts; that the alpha table is keyed and scoped correctly beyond FLW-8 (C04); tone.",
+        "assumptions": ["length abstracted to the manual's three values (see C05)", "`==` on Syllable is field-wise (FLW-3d, decided under C16)"],
     },
     "C08": {
         "controls": ["FLW-guard", "BIT"],
